@@ -76,9 +76,11 @@ fn many_tasks(rep: &Report, n: usize) {
         ops.push(taskchampion::Operation::Create { uuid: u });
         ops.push(taskchampion::Operation::Update {
             uuid: u,
-            property: format!("k{}", i % 7),
+            // dense multi-byte text in keys and values: whatever block size a reader or writer of the
+            // (about 0.8 MB) snapshot uses, block boundaries fall inside multi-byte characters
+            property: format!("k{}\u{43a}\u{43b}\u{44e}\u{447}", i % 7),
             old_value: None,
-            value: Some(format!("välue {i} \u{1F600}")),
+            value: Some(format!("välue {i} {}", "\u{1F600}\u{65e5}\u{df}".repeat(40))),
             timestamp: ts(1),
         });
     }
